@@ -1,6 +1,8 @@
 (* C13, part 5: floating point.  IEEE conversions and math/big.Float are oracles; what is proved is the logic around them:
-   a narrowing is accepted only when the oracle says it is exact, a big.Float only when Float64 reports big.Exact,
-   NaN is never stored into a big.Float.  Subject: gen/Numeric_gen.v. *)
+   a narrowing is accepted only when the oracle says it is exact (or the value is NaN, which narrows to NaN), a big.Float
+   source only when Float64 reports big.Exact, a big.Float DESTINATION only when its Acc() after SetFloat64 is big.Exact
+   (SetFloat64 rounds to the precision the destination was configured with: exactness is NOT assumed, it follows from
+   the check in float64ToBigFloat), NaN is never stored into a big.Float.  Subject: gen/Numeric_gen.v. *)
 From Coq Require Import ZArith List String Bool Lia.
 From GCNP Require Import base.GoInt base.GoNum gen.Numeric_gen proofs.NumericBase.
 Import ListNotations.
@@ -8,20 +10,48 @@ Open Scope Z_scope.
 
 Section Floats.
 Variable O : oracles.
-(* the extended real (or NaN) a bit pattern denotes; V is any set of values *)
+(* the extended real (or NaN) a bit pattern denotes; V is any set of values, vnan the one value every NaN pattern denotes *)
 Variable V : Type.
-Variables (val64 val32 : Z -> V) (valbig : bigfloat -> V).
-(* documented contracts: widening float32 -> float64 is exact; == holds only between equal values;
-   Float64() reporting Exact (accuracy 0) returned the same value; SetFloat64 is exact *)
+Variables (val64 val32 : Z -> V) (valbig : bigfloat -> V) (vnan : V).
+(* documented contracts.
+   IEEE-754 / Go spec: widening float32 -> float64 is exact; == holds only between equal values (never for NaN);
+   math.IsNaN answers true only for a NaN; converting a NaN to float32 gives a NaN.
+   math/big: Float64() reporting Exact (accuracy 0) returned the same value;
+   z.SetFloat64(x) rounds x to z's precision and z.Acc() is then Exact (0) exactly when z holds x itself. *)
 Hypothesis widen_exact : forall w, val64 (o_f32_to_f64 O w) = val32 w.
 Hypothesis eq_sound : forall a b, o_f64_eqb O a b = true -> val64 a = val64 b.
+Hypothesis isnan_sound : forall b, o_f64_isnan O b = true -> val64 b = vnan.
+Hypothesis narrow_nan : forall b, o_f64_isnan O b = true -> val32 (o_f64_to_f32 O b) = vnan.
 Hypothesis bigfloat_exact : forall f b, o_BigFloat_Float64 O f = (b, 0) -> val64 b = valbig f.
-Hypothesis setfloat_exact : forall b, o_f64_isnan O b = false -> valbig (o_BigFloat_SetFloat64 O b) = val64 b.
+Hypothesis setfloat_acc : forall p b f a, o_f64_isnan O b = false -> o_BigFloat_SetFloat64 O p b = (f, a) ->
+  (a = 0 <-> valbig f = val64 b).
 
+(* float64 -> float32: the same value (NaN to NaN) or an error *)
 Theorem float64ToFloat32_exact v w : float64ToFloat32 O v = Ok w -> val32 w = val64 v.
 Proof.
-  unfold float64ToFloat32. destruct (o_f64_eqb O _ v) eqn:E; cbn [negb]; [|discriminate].
-  intro H. injection H as <-. rewrite <- widen_exact. apply eq_sound. exact E.
+  unfold float64ToFloat32.
+  destruct (o_f64_eqb O _ v) eqn:E; destruct (o_f64_isnan O v) eqn:N; cbn [negb andb]; try discriminate;
+    intro H; injection H as <-.
+  - rewrite <- widen_exact. apply eq_sound. exact E.
+  - rewrite <- widen_exact. apply eq_sound. exact E.
+  - rewrite (narrow_nan _ N), (isnan_sound _ N). reflexivity.
+Qed.
+
+(* the NaN clause on its own: if a NaN is delivered at all, it is delivered as a NaN *)
+Theorem float64ToFloat32_nan v w : o_f64_isnan O v = true -> float64ToFloat32 O v = Ok w -> val32 w = vnan /\ val64 v = vnan.
+Proof.
+  intros N H. pose proof (float64ToFloat32_exact _ _ H) as E. rewrite (isnan_sound _ N) in E. split; [exact E|].
+  apply isnan_sound. exact N.
+Qed.
+
+(* a value that survives the round trip through float32 is never refused; anything else that is not NaN is *)
+Theorem float64ToFloat32_accepts v :
+  (o_f64_eqb O (o_f32_to_f64 O (o_f64_to_f32 O v)) v = true -> float64ToFloat32 O v = Ok (o_f64_to_f32 O v)) /\
+  (o_f64_eqb O (o_f32_to_f64 O (o_f64_to_f32 O v)) v = false -> o_f64_isnan O v = false -> float64ToFloat32 O v = Err).
+Proof.
+  unfold float64ToFloat32. split.
+  - intros ->. reflexivity.
+  - intros -> ->. reflexivity.
 Qed.
 
 Theorem bigFloatToFloat64_exact f b : bigFloatToFloat64 O f = Ok b -> val64 b = valbig f.
@@ -31,13 +61,31 @@ Proof.
   intro H. injection H as <-. apply bigfloat_exact. exact E.
 Qed.
 
-Theorem float64ToBigFloat_exact b st : float64ToBigFloat O b = Ok st -> exists f, st = Some (G_bigfloat f) /\ valbig f = val64 b.
+(* float64 -> *big.Float of ANY preset precision p: what is stored is the same value, or an error is returned.
+   Nothing is assumed about SetFloat64 being exact: the conclusion comes from the Acc() test of the code. *)
+Theorem float64ToBigFloat_exact b p st : float64ToBigFloat O b p = Ok st -> exists f, st = Some (G_bigfloat f) /\ valbig f = val64 b.
 Proof.
-  unfold float64ToBigFloat, ret_res. destruct (o_f64_isnan O b) eqn:E; [discriminate|].
-  intro H. injection H as <-. eexists. split; [reflexivity|]. apply setfloat_exact. exact E.
+  unfold float64ToBigFloat, ret_res. destruct (o_f64_isnan O b) eqn:N; [discriminate|].
+  destruct (o_BigFloat_SetFloat64 O p b) as [f a] eqn:E.
+  destruct (Z.eqb_spec a 0) as [->|]; cbn [negb]; [|discriminate].
+  intro H. injection H as <-. exists f. split; [reflexivity|]. apply (setfloat_acc p b f 0 N E). reflexivity.
 Qed.
 
-(* the CQL float switch: float32 sources pass unchanged, float64 sources only when narrowing is exact *)
+(* and exactly then: a value the destination holds unrounded is accepted, a rounded one and NaN are refused *)
+Theorem float64ToBigFloat_decides b p :
+  (o_f64_isnan O b = true -> float64ToBigFloat O b p = Err) /\
+  (o_f64_isnan O b = false -> forall f a, o_BigFloat_SetFloat64 O p b = (f, a) ->
+     (valbig f = val64 b -> float64ToBigFloat O b p = Ok (Some (G_bigfloat f))) /\
+     (valbig f <> val64 b -> float64ToBigFloat O b p = Err)).
+Proof.
+  unfold float64ToBigFloat, ret_res. split.
+  - intros ->. reflexivity.
+  - intros N f a E. rewrite N, E. pose proof (setfloat_acc p b f a N E) as [H1 H2]. split.
+    + intro Hv. rewrite (H2 Hv). reflexivity.
+    + intro Hv. destruct (Z.eqb_spec a 0) as [->|]; cbn [negb]; [|reflexivity]. exfalso. apply Hv, H1. reflexivity.
+Qed.
+
+(* the CQL float switch: float32 sources pass unchanged, float64 sources only when narrowing is exact (or NaN) *)
 Theorem convertToFloat32_exact g w : convertToFloat32 O g = Ok (w, false) ->
   match g with
   | G_float32 b | G_pfloat32 (Some b) => w = b
@@ -53,7 +101,8 @@ Proof.
   try (destruct (float64ToFloat32 O b) as [x|] eqn:E; cbn; [|discriminate]; intro H; injection H as <-; exact (float64ToFloat32_exact _ _ E)).
 Qed.
 
-(* the CQL double switch into *float32 *)
+(* the CQL double switch, every supported destination: *float64 and *interface{} receive the bits themselves,
+   *float32 and *big.Float (of any preset precision) the same value or nothing *)
 Theorem convertFromFloat64_float32_exact b st : convertFromFloat64 O b false (D_pfloat32 false) = Ok st ->
   exists w, st = Some (G_float32 w) /\ val32 w = val64 b.
 Proof.
@@ -61,4 +110,79 @@ Proof.
   destruct (float64ToFloat32 O b) as [x|] eqn:E; cbn; [|discriminate].
   intro H. injection H as <-. eexists. split; [reflexivity|]. exact (float64ToFloat32_exact _ _ E).
 Qed.
+
+Theorem convertFromFloat64_bigfloat_exact b p st : convertFromFloat64 O b false (D_pbigfloat false p) = Ok st ->
+  exists f, st = Some (G_bigfloat f) /\ valbig f = val64 b.
+Proof.
+  unfold convertFromFloat64. cbv beta iota zeta delta [res_split is_ok fst snd]; cbn [negb].
+  destruct (float64ToBigFloat O b p) as [x|] eqn:E; cbn; [|discriminate].
+  intro H. injection H as <-. exact (float64ToBigFloat_exact _ _ _ E).
+Qed.
+
+Theorem convertFromFloat64_exact b d st : convertFromFloat64 O b false d = Ok st ->
+  match d with
+  | D_pfloat64 false | D_piface false => st = Some (G_float64 b)
+  | D_pfloat32 false => exists w, st = Some (G_float32 w) /\ val32 w = val64 b
+  | D_pbigfloat false _ => exists f, st = Some (G_bigfloat f) /\ valbig f = val64 b
+  | _ => False
+  end.
+Proof.
+  destruct d as [n|n|n|n|n|n|n|n|n|n|n|n|n|n|n|n p|n|n|]; try destruct n;
+    try apply convertFromFloat64_float32_exact; try apply convertFromFloat64_bigfloat_exact;
+    unfold convertFromFloat64; cbv beta iota zeta delta [res_split ret_res is_ok fst snd]; cbn [negb];
+    try discriminate; intro H; injection H as <-; reflexivity.
+Qed.
 End Floats.
+
+(* ---- non-vacuity: a (toy) instance of the float oracles that satisfies every contract above, on which both outcomes occur.
+   "float64"/"float32" patterns are natural numbers denoting themselves, except 7 which is the NaN; float32 saturates at 99;
+   a big.Float of precision p > 0 holds multiples of 2^p only (p = 0: everything).  The real library enters through the
+   correspondence run, where the oracle is the table of what math/big and the hardware answered. *)
+Definition Otoy : oracles := {|
+  o_ParseInt := fun _ _ _ => Err; o_FormatInt := fun _ _ => ""%string;
+  o_BigSetString := fun _ _ => (0, false); o_BigText := fun _ _ => ""%string;
+  o_f64_to_f32 := fun x => if x =? 7 then 7 else if x <? 100 then x else 99;
+  o_f32_to_f64 := fun x => x;
+  o_f64_eqb := fun x y => (x =? y) && negb (x =? 7);
+  o_f64_isnan := fun x => x =? 7;
+  o_BigFloat_Float64 := fun f => if fst f =? 7 then (0, -1) else (fst f, 0);
+  o_BigFloat_SetFloat64 := fun p x => if p =? 0 then ((x, 0), 0) else
+                                      let r := x / 2 ^ p * 2 ^ p in ((r, 0), if r =? x then 0 else -1);
+  o_TimeParse := fun _ _ => Err; o_TimeFormat := fun _ _ => ""%string
+|}.
+Definition toy_val (b : Z) : option Z := if b =? 7 then None else Some b.
+Definition toy_valbig (f : bigfloat) : option Z := Some (fst f).
+
+Example float_contracts_satisfiable :
+  (forall w, toy_val (o_f32_to_f64 Otoy w) = toy_val w) /\
+  (forall a b, o_f64_eqb Otoy a b = true -> toy_val a = toy_val b) /\
+  (forall b, o_f64_isnan Otoy b = true -> toy_val b = None) /\
+  (forall b, o_f64_isnan Otoy b = true -> toy_val (o_f64_to_f32 Otoy b) = None) /\
+  (forall f b, o_BigFloat_Float64 Otoy f = (b, 0) -> toy_val b = toy_valbig f) /\
+  (forall p b f a, o_f64_isnan Otoy b = false -> o_BigFloat_SetFloat64 Otoy p b = (f, a) ->
+     (a = 0 <-> toy_valbig f = toy_val b)).
+Proof.
+  unfold toy_val, toy_valbig, Otoy;
+    cbn [o_f32_to_f64 o_f64_eqb o_f64_isnan o_f64_to_f32 o_BigFloat_Float64 o_BigFloat_SetFloat64].
+  split; [|split; [|split; [|split; [|split]]]].
+  - reflexivity.
+  - intros a b H. apply andb_prop in H as [H _]. apply Z.eqb_eq in H. subst. reflexivity.
+  - intros b ->. reflexivity.
+  - intros b H. rewrite H. reflexivity.
+  - intros f b. destruct (Z.eqb_spec (fst f) 7) as [|N]; [discriminate|]. intro H. injection H as <-.
+    destruct (Z.eqb_spec (fst f) 7); [contradiction|reflexivity].
+  - intros p b f a N E. rewrite N. destruct (p =? 0).
+    + injection E as <- <-. cbn [fst]. split; reflexivity.
+    + injection E as <- <-. cbn [fst]. destruct (Z.eqb_spec (b / 2 ^ p * 2 ^ p) b) as [e|ne].
+      * rewrite e. split; reflexivity.
+      * split; [discriminate|]. intro H. injection H as H. contradiction.
+Qed.
+
+Example float_examples :
+  float64ToFloat32 Otoy 7 = Ok 7 /\ float64ToFloat32 Otoy 50 = Ok 50 /\ float64ToFloat32 Otoy 150 = Err /\
+  float64ToBigFloat Otoy 5 0 = Ok (Some (G_bigfloat (5, 0))) /\ float64ToBigFloat Otoy 4 1 = Ok (Some (G_bigfloat (4, 0))) /\
+  float64ToBigFloat Otoy 5 1 = Err /\ float64ToBigFloat Otoy 7 0 = Err /\
+  convertFromFloat64 Otoy 5 false (D_pbigfloat false 1) = Err /\
+  convertFromFloat64 Otoy 6 false (D_pbigfloat false 1) = Ok (Some (G_bigfloat (6, 0))) /\
+  convertFromFloat64 Otoy 7 false (D_pfloat32 false) = Ok (Some (G_float32 7)).
+Proof. repeat split; vm_compute; reflexivity. Qed.
